@@ -6,7 +6,7 @@ m=json.load(open(M))
 CHECKS = {
  "C19": dict(engine="dirsim", category="fault_enumeration", design_ref="DESIGN.md §2.5, §4 C19, Appendix C",
    technique="deterministic simulation: disk model + real scratch directory, seeded fault plans between Next() calls, reference-model oracle",
-   text="Seeded simulation of the directory source on a real scratch directory driven by a disk model: bad entries of eleven kinds at listing time and vanish/truncate/overwrite/replace faults applied at exact instants between Next() calls (the simulator issues every call through a tee handed to BuildJournal). Oracle: reference model of the source (sorted snapshot, read-time readability) tracked as a set of feasible positions, journal and CSV equality against the good files alone, sticky end, bounded number of calls. One run in six enumerates every single-fault placement on its base directory. Sampling of bases, enumeration of placements per base: evidence, not proof.",
+   text="Seeded simulation of the directory source on a real scratch directory driven by a disk model: bad entries of eleven kinds at listing time and vanish/truncate/overwrite/replace faults applied at exact instants between Next() calls (the simulator issues every call through a tee handed to BuildJournal). Oracle: reference model of the source (sorted snapshot, read-time readability) tracked as a set of feasible positions under every bundled parse configuration, journal and CSV equality against the good files alone, sticky end, bounded number of calls; the built command line tool is run as a sub-process on a sample of directories. One run in six enumerates every single-fault placement on its base directory. Sampling of bases, enumeration of placements per base: evidence, not proof.",
    note="Trusted: the harness's disk model, ParseRealtime with fresh options as the oracle for what a good file yields, the OS file system producing ENOENT/EISDIR/ELOOP as modelled. EIO/short reads are not injected."),
  "C14": dict(engine="world", category="exploration", design_ref="DESIGN.md §2.4, §4 C14/C15, Appendix B",
    technique="deterministic simulation: simulated transit world + lossy transport feeding BuildJournal, stepwise reference model on every prefix",
@@ -18,11 +18,11 @@ CHECKS = {
    note="Trusted: the reference model; grouping key (start instant, id minus 6-char prefix) as stated by the property."),
  "C18": dict(engine="sched", category="exploration", design_ref="DESIGN.md §2.3, §4 C18",
    technique="deterministic simulation: seeded cooperative scheduler over caller goroutines + Go race detector with scheduler edges hidden, per-call equality with solo execution",
-   text="2-6 caller tasks run ParseRealtime/ParseStatic on shared input buffers and shared option/extension objects as real goroutines of which exactly one is runnable; a seeded scheduler picks who runs at every yield point (extension interface proxy, tagged hooks in csv.NextRow and the realtime entity loops, task-level points). The binary is built with -race and the scheduler's own synchronisation is hidden from ThreadSanitizer, so only synchronisation performed by the library orders two tasks. Oracle: no race report; each call's result equals the same call executed alone on fresh objects; shared inputs unchanged.",
+   text="2-6 caller tasks run ParseRealtime/ParseStatic on shared input buffers and shared option/extension objects as real goroutines of which exactly one is runnable; a seeded scheduler picks who runs at every yield point (extension interface proxy, tagged hooks in csv.NextRow and the realtime entity loops, task-level points, and the sites an AST instrumenter inserts into a scratch copy of /repo's working tree: every declared function's entry and around every synchronisation-like call). The binary is built with -race and the scheduler's own synchronisation is hidden from ThreadSanitizer, so only synchronisation performed by the library orders two tasks. Oracle: no race report; each call's result equals the same call executed alone on fresh objects; shared inputs unchanged.",
    note="Trusted: ThreadSanitizer, the runtime.RaceDisable/Enable bracket around park/resume. Pre-emption only at yield points (the race detector still sees every access)."),
  "C06": dict(engine="history", category="exploration", design_ref="DESIGN.md §4 C06",
    technique="deterministic simulation of call histories on long-lived option/extension objects; refinement against fresh-object reference, in-process repetition and fresh-process digests",
-   text="Seeded histories of 2-10 parse calls on 1-3 long-lived options/extension objects (all bundled extension configurations, corrupt inputs included). Each call's result must equal the parse of the same bytes with a fresh equivalent object, all R in-process repetitions must agree in content and order, fresh child processes at several GOMAXPROCS values must produce the same digests, and the input buffer must be unchanged.",
+   text="Seeded histories of 2-10 parse calls on 1-3 long-lived options/extension objects (all bundled extension configurations, corrupt inputs included). Each call's result must equal the parse of the same bytes with a fresh equivalent object, all R in-process repetitions must agree in content and order, fresh child processes at several GOMAXPROCS values, half of them executing the same operations in the opposite order, must produce the same per-operation digests, documented option equivalences (nil timezone = UTC, nil extension = none) must hold, and the input buffer must be unchanged.",
    note="Go map iteration order cannot be seeded: order defects are detected probabilistically per run (inputs carry >= 3 members per map-built collection, R repetitions); state-leak failures replay exactly."),
  "C05": dict(engine="crash", category="exploration", design_ref="DESIGN.md §2.6, §4 C05",
    technique="seeded fault injection on stored bytes, the csv.New reader seam, records and protobuf fields, plus faulted feed sequences into the journal; crash/termination oracle",
